@@ -168,6 +168,7 @@ func emitTypedWith(cw *caseWriter, f, ty string, v interface{}, batchBack string
 	if pan != "" {
 		written = "panic " + strings.ReplaceAll(pan, "\t", " ")
 	}
+	orig2 := back2 // what the value gives on its own through a fresh exporter and importer
 	if batchBack != "" && strings.HasPrefix(back2, "ok") {
 		back2 = batchBack
 	}
@@ -198,7 +199,8 @@ func emitTypedWith(cw *caseWriter, f, ty string, v interface{}, batchBack string
 		}); p != "" {
 			back3 = "panic " + strings.ReplaceAll(p, "\t", " ")
 		}
-		if strings.HasPrefix(back2, "ok") && back3 != back2 {
+		// reported instead of the value's own result only when it differs from it (and the batch route does not already)
+		if strings.HasPrefix(orig2, "ok") && back2 == orig2 && back3 != orig2 {
 			back2 = back3
 		}
 	}
